@@ -27,7 +27,7 @@ def register(prop, TB_COMMON):
         "(gen_total_*, gen_no_hang_*, gen_value_or_error_*: every closed document, every byte string, every reader state) about the template model, which the "
         "C09gen stream compares with the compiled emitted code on adversarial inputs; the known findings D10 D12 D29 D34 D37 are where the real emitted code leaves the model",
     ]
-    prop("C09", lean_props=["C09", "C09Gen", "Tables"], trusted_base=tb_tot, oracle_tags=["C09"], bins=["rt", "gentool"],
+    prop("C09", lean_props=["C09", "C09Gen", "C09Async", "Tables"], trusted_base=tb_tot, oracle_tags=["C09"], bins=["rt", "gentool"],
          streams=[{"name": "C09"}, {"name": "C09gen", "bin": "genrun", "pygen": "requests_C09gen"}],
          explanation="sk: raw bytes (every truncation, bit flips, every type / length / count / field-id position overwritten with boundary values, random strings, "
                      "nesting bombs) through read and skip of every safe reader; pfx: every strict prefix of a valid encoding rejected by read and by skip; "
